@@ -43,6 +43,14 @@ DescsOf(T, L, raw) ==
 
 NumPresent(d) == Cardinality({i \in Inst : Present(d[i])})
 
+(* A cheap deterministic number of a descriptor, used only to slice / thin  *)
+(* the sets of cases handed to the harness.                                 *)
+StateIx(s) == CASE s = "ABSENT" -> 0 [] s = "ACTIVE" -> 1 [] s = "LEAVING" -> 2 [] s = "PENDING" -> 3
+                [] s = "JOINING" -> 4 [] s = "LEFT" -> 5
+Rank(d) == LET W(i) == i * (7 * d[i].ts + 3 * StateIx(d[i].state) + Cardinality(d[i].toks))
+               f[k \in 0..N] == IF k = 0 THEN 0 ELSE f[k - 1] + W(k)
+           IN  f[N]
+
 ---------------------------------------------------------------------------
 (* normalizeIngestersMap: LEFT entries have no tokens (sorting and          *)
 (* de-duplication are the identity on sets).                                *)
